@@ -203,7 +203,24 @@ func (r *c27Run) Main(s *sim.Sim) {
 	}
 	s.Nontrivial()
 	// progress of the publish loop while a subscription is registered
-	live := len(cl.SubscriptionIDs())
+	// SubscriptionIDs needs subMux itself: if a background goroutine of the client (the
+	// reconnect monitor forgetting a subscription, the publish loop) sits on that lock
+	// for good, this call - an API call like any other - never returns either
+	subIDs := func() (int, bool) {
+		ch := make(chan int, 1)
+		go func() { ch <- len(cl.SubscriptionIDs()) }()
+		select {
+		case n := <-ch:
+			return n, true
+		case <-time.After(budget):
+			return 0, false
+		}
+	}
+	live, okIDs := subIDs()
+	if !okIDs {
+		s.Fail("C27", "api-call-stuck", stuckCallSig(), "SubscriptionIDs did not return within %v after all other calls had returned\n%s", budget, clientStacks())
+		return
+	}
 	if live > 0 && cl.State() == opcua.Connected {
 		keep := time.Duration(r.KeepAlive+1) * time.Duration(r.IntervalMs) * time.Millisecond
 		window := 3*keep + 2*reqTO + 2*time.Second
@@ -214,7 +231,12 @@ func (r *c27Run) Main(s *sim.Sim) {
 		r.mu.Lock()
 		after := r.publish
 		r.mu.Unlock()
-		if after == before && len(cl.SubscriptionIDs()) > 0 && cl.State() == opcua.Connected {
+		nowLive, okIDs := subIDs()
+		if !okIDs {
+			s.Fail("C27", "api-call-stuck", stuckCallSig(), "SubscriptionIDs did not return within %v\n%s", budget, clientStacks())
+			return
+		}
+		if after == before && nowLive > 0 && cl.State() == opcua.Connected {
 			hint := "running"
 			r.mu.Lock()
 			noTimeout := r.lastHint == 0xffffffff
